@@ -39,6 +39,7 @@ WP(p)          == [op |-> "WP", c |-> 0, pm |-> p]
 SD(d)          == [op |-> "SD", c |-> 0, dl |-> d]
 EC(on)         == [op |-> "EC", c |-> 0, on |-> on]
 SL(lv)         == [op |-> "SL", c |-> 0, level |-> lv]
+XC             == [op |-> "XC", c |-> 0]
 
 Init ==
   /\ cf \in ConnCfgs
@@ -235,6 +236,7 @@ DoSet(o) ==
       st2 == CASE o.op = "SD" -> [st EXCEPT !.dl = o.dl]
                [] o.op = "EC" -> [st EXCEPT !.wcomp = o.on]
                [] o.op = "SL" -> IF o.level \in -2..9 THEN [st EXCEPT !.level = o.level] ELSE st
+               [] o.op = "XC" -> st
   IN Record(o, Nil, << >>, st2)
 
 Step ==
